@@ -8,7 +8,9 @@
 use drivers::catalogue::{self, sparse_multiset, BitsDesc, Desc};
 use drivers::*;
 use serde::{Deserialize, Serialize};
-use simple_sds::bit_vector::BitVector;
+use simple_sds::bit_vector::rank_support::RankSupport;
+use simple_sds::bit_vector::select_support::SelectSupport;
+use simple_sds::bit_vector::{BitVector, Complement, Identity};
 use simple_sds::int_vector::IntVector;
 use simple_sds::ops::{Access, BitVec, PredSucc, Rank, Select, SelectZero, Vector};
 use simple_sds::raw_vector::{AccessRaw, RawVector};
@@ -25,6 +27,8 @@ enum Case {
     IntAccess { width: usize, values: Vec<u64> },
     /// Every view type at every offset of the file made of these values.
     AnyViewAnywhere { descs: Vec<Desc> },
+    /// The public rank / select support structures built for one bitvector and queried with another parent.
+    ForeignSupport { own: BitsDesc, other: BitsDesc },
 }
 
 /// Runs a call whose answer is not specified: only an out-of-bounds outcome counts.
@@ -118,6 +122,40 @@ fn no_support(ctx: &mut Ctx, bits: &BitsDesc) {
         }
     }
     let _ = m;
+}
+
+/// `RankSupport::rank` and `SelectSupport::select` are safe public functions that take the parent as an
+/// argument ("may panic" for arguments past the end): with any parent and any argument they may panic or
+/// return garbage, but may not leave the buffers.
+fn foreign_support(ctx: &mut Ctx, own: &BitsDesc, other: &BitsDesc) {
+    let c = Case::ForeignSupport { own: own.clone(), other: other.clone() };
+    let case = || serde_json::to_value(&c).unwrap();
+    ctx.announce(case);
+    ctx.nontrivial(&c);
+    let a = bv_from_model(&own.model());
+    let b = bv_from_model(&other.model());
+    let rs = RankSupport::new(&a);
+    let ss = SelectSupport::<Identity>::new(&a);
+    let sz = SelectSupport::<Complement>::new(&a);
+    let top = a.len().max(b.len());
+    let mut args: Vec<usize> = (0..=top.min(140) + 2).collect();
+    for base in [a.len(), b.len(), a.count_ones(), b.count_ones(), a.count_zeros(), b.count_zeros()] {
+        args.extend(boundary_args(base));
+        for k in [64usize, 512, 4096] {
+            let r = base / k * k;
+            args.extend([r.saturating_sub(1), r, r + 1, r + k - 1, r + k, r + k + 1]);
+        }
+    }
+    args.sort_unstable();
+    args.dedup();
+    for parent in [&a, &b] {
+        let which = if std::ptr::eq(parent, &a) { "own parent" } else { "foreign parent" };
+        for &i in &args {
+            let _ = safe!(ctx, format!("RankSupport.rank[{}]", which), case, rs.rank(parent, i));
+            let _ = safe!(ctx, format!("SelectSupport<Identity>.select[{}]", which), case, ss.select(parent, i));
+            let _ = safe!(ctx, format!("SelectSupport<Complement>.select[{}]", which), case, sz.select(parent, i));
+        }
+    }
 }
 
 fn raw_access(ctx: &mut Ctx, bits: &BitsDesc) {
@@ -253,6 +291,44 @@ fn explore(ctx: &mut Ctx) {
             raw_access(ctx, &bits);
         }
     }
+    // Support structures with their own and with foreign parents: small ones exhaustively, plus
+    // word / block / superblock sized ones.
+    let fs = ctx.tier.pick(4, 6);
+    let mut shapes: Vec<BitsDesc> = Vec::new();
+    for len in 0..=fs {
+        for word in 0..(1u64 << len) {
+            shapes.push(BitsDesc::Word { len, word });
+        }
+    }
+    let small_shapes = shapes.len();
+    for b in [
+        BitsDesc::Word { len: 64, word: !0 },
+        BitsDesc::Word { len: 63, word: 0x5555_5555_5555_5555 },
+        BitsDesc::Runs { pairs: vec![(0, 100)], tail: 0 },
+        BitsDesc::Runs { pairs: vec![(0, 128)], tail: 0 },
+        BitsDesc::Runs { pairs: vec![(3, 509)], tail: 0 },
+        BitsDesc::Runs { pairs: vec![(0, 300), (212, 1)], tail: 0 },
+        BitsDesc::Runs { pairs: vec![(1, 1), (510, 1), (511, 1)], tail: 600 },
+        BitsDesc::Letters(vec![enumr::Letter::Every(3, 5000)]),
+        BitsDesc::Letters(vec![enumr::Letter::Ones(4097), enumr::Letter::Zeros(4097)]),
+    ] {
+        shapes.push(b);
+    }
+    for (i, own) in shapes.iter().enumerate() {
+        for (j, other) in shapes.iter().enumerate() {
+            // small x small exhaustively; every big shape against every shape
+            if (i < small_shapes && j < small_shapes) || i >= small_shapes || j >= small_shapes {
+                let c = Case::ForeignSupport { own: own.clone(), other: other.clone() };
+                if ctx.mine(&c) {
+                    ctx.count("foreign_support_cases", 1);
+                    if i >= small_shapes && j >= small_shapes {
+                        ctx.sample_tagged("foreign-support", || serde_json::to_value(&c).unwrap());
+                    }
+                    foreign_support(ctx, own, other);
+                }
+            }
+        }
+    }
     for w in [1usize, 7, 13, 63, 64] {
         let m = if w == 64 { !0u64 } else { (1u64 << w) - 1 };
         for k in [0usize, 1, 5, 10] {
@@ -295,6 +371,7 @@ fn replay(ctx: &mut Ctx, v: &Value) {
         Case::RawAccess(bits) => raw_access(ctx, &bits),
         Case::IntAccess { width, values } => int_access(ctx, width, &values),
         Case::AnyViewAnywhere { descs } => any_view_anywhere(ctx, &descs),
+        Case::ForeignSupport { own, other } => foreign_support(ctx, &own, &other),
     }
 }
 
